@@ -29,23 +29,22 @@ def mccaC (X : Mat n P α) (blk : Fin P → Nat) (nv : Nat) : Mat P P α :=
   ofFn fun a b =>
     Entry.divReal (Call.get a b - (if blk a = blk b then Call.get a b else (Zero.zero : α))) (Num.ofNat nv : ρ)
 
-/-- `_D` without PCA: `blockdiag((1 − c_i) cov(view_i) + c_i I)`, minus `(lmin − eps) I` (`shift = lmin − eps`, `lmin` oracle),
-over the number of views -/
-def mccaD (X : Mat n P α) (blk : Fin P → Nat) (nv : Nat) (c : Nat → ρ) (shift : ρ) : Mat P P α :=
-  let Call : Mat P P α := npCov (ρ := ρ) X
+/-- `_D` without PCA (real data, as the source asserts): `blockdiag((1 − c_i) cov(view_i) + c_i I)` — entry by entry the generated
+`Gen.mccaRidge` — minus `Gen.mccaShift lmin eps` on the diagonal (`lmin = min(0, smallest eigenvalue)` is an ORACLE), over the
+number of views -/
+def mccaD [Entry ρ ρ] (X : Mat n P ρ) (blk : Fin P → Nat) (nv : Nat) (c : Nat → ρ) (lmin eps : ρ) : Mat P P ρ :=
+  let Call : Mat P P ρ := npCov (ρ := ρ) X
   ofFn fun a b =>
-    let blockEntry : α :=
-      if blk a = blk b then
-        Entry.ofReal (Num.ofNat 1 - c (blk a)) * Call.get a b + (if a = b then Entry.ofReal (c (blk a)) else (Zero.zero : α))
-      else (Zero.zero : α)
-    Entry.divReal (blockEntry - (if a = b then Entry.ofReal shift else (Zero.zero : α))) (Num.ofNat nv : ρ)
+    let blockEntry : ρ :=
+      if blk a = blk b then Gen.mccaRidge (c (blk a)) (Call.get a b) (if a = b then Num.ofNat 1 else Num.ofNat 0)
+      else Num.ofNat 0
+    (blockEntry - (if a = b then Gen.mccaShift lmin eps else Num.ofNat 0)) / Num.ofNat nv
 
-/-- `_D` with the PCA option: the blocks are `diag((1 − c_i) expvar + c_i)` -/
-def mccaDpca (blk : Fin P → Nat) (nv : Nat) (c : Nat → ρ) (expvar : Fin P → ρ) (shift : ρ) : Mat P P α :=
+/-- `_D` with the PCA option: the blocks are `diag(Gen.mccaRidgePca c_i expvar)` -/
+def mccaDpca (blk : Fin P → Nat) (nv : Nat) (c : Nat → ρ) (expvar : Fin P → ρ) (lmin eps : ρ) : Mat P P ρ :=
   ofFn fun a b =>
-    Entry.divReal
-      ((if a = b then Entry.ofReal ((Num.ofNat 1 - c (blk a)) * expvar a + c (blk a)) else (Zero.zero : α))
-        - (if a = b then Entry.ofReal shift else (Zero.zero : α))) (Num.ofNat nv : ρ)
+    ((if a = b then Gen.mccaRidgePca (c (blk a)) (expvar a) else Num.ofNat 0)
+      - (if a = b then Gen.mccaShift lmin eps else Num.ofNat 0)) / Num.ofNat nv
 
 /-- the columns of view `v` only (the others zeroed): `eigvecs.isel(feature = slice(idx[v], idx[v+1]))` embedded in place -/
 def viewPart (W : Mat P k α) (blk : Fin P → Nat) (v : Nat) : Mat P k α :=
@@ -83,7 +82,7 @@ def mccaFit (Xphys : Mat n Q α) (blkQ : Fin Q → Nat) (B : Mat Q P α) (E : Ma
     loadings := lo
     variates := va
     canLoad := fun v => viewPart (ρ := ρ) ((transposeV Xphys).mul (va v)) blkQ v
-    expvar := fun v => colVar (ρ := ρ) (Xphys.mul (lo v)) 0 }
+    expvar := fun v => colVar (ρ := ρ) (Xphys.mul (lo v)) Gen.mccaExpvarDdof }
 
 /-- `CCA._transform`: every view times its own weights -/
 def mccaTransform (F : MccaFit n Q k ρ α) (blkQ : Fin Q → Nat) (Xnew : Mat m Q α) (v : Nat) : Mat m k α :=
